@@ -42,7 +42,7 @@ def _pair(draw):
     w = draw(gens.witness_s(pool))
     cls = draw(st.sampled_from(["identical", "sublist", "weakened", "farkas", "scaled", "separated", "unrelated",
                                 "unbounded", "infeasible-left", "infeasible-right", "empty-right", "empty-left",
-                                "equal-bounds", "both-infeasible"]))
+                                "equal-bounds", "both-infeasible", "separated-large-constant"]))
     L = draw(gens.termlist_s(pool, w, 1, 5))
     if cls == "identical":
         R = list(draw(st.permutations(L)))
@@ -79,6 +79,14 @@ def _pair(draw):
         for _ in range(draw(st.integers(0, 2))):
             t = draw(gens.term_s(pool, None))
             L.append([t[0], t[1] + 40.0])
+    elif cls == "separated-large-constant":
+        # a small but clear violation next to a very loose left-hand bound with a large constant
+        R = draw(gens.termlist_s(pool, w, 1, 2))
+        r = draw(st.sampled_from(R))
+        gap = draw(st.sampled_from([0.5, 0.25, 0.01, 0.05]))
+        big = draw(st.sampled_from([2e4, 1e5, 1e6, 5e5]))
+        L = [[{k: -v for k, v in r[0].items()}, -(r[1] + gap)], [dict(r[0]), r[1] + gap + 1.0],
+             [{draw(st.sampled_from(pool)): draw(st.sampled_from([1.0, -1.0]))}, big]]
     elif cls == "unrelated":
         R = draw(gens.termlist_s(pool, w, 1, 4))
     elif cls == "unbounded":
@@ -121,7 +129,10 @@ def _case(draw):
     kind = draw(st.sampled_from(["tl", "tl", "tl", "contract", "contract", "env", "impl", "iface"]))
     if kind == "tl":
         cls, L, R, pool, w = draw(_pair())
-        return {"kind": "tl", "cls": cls, "L": L, "R": R, "via": draw(st.sampled_from(["refines", "<="]))}
+        case = {"kind": "tl", "cls": cls, "L": L, "R": R, "via": draw(st.sampled_from(["refines", "<="]))}
+        if draw(st.integers(0, 3)) == 0:
+            case["prime"] = draw(st.sampled_from(["left-looser", "right-tighter"]))
+        return case
     if kind == "iface":
         ins, outs = ["a", "b"], ["x"]
         w = draw(gens.witness_s(ins + outs + ["y", "c"]))
@@ -212,6 +223,16 @@ def run_case(case):
     if kind == "tl":
         L, R = case["L"], case["R"]
         tl, tr = env.TL(L), env.TL(R)
+        if case.get("prime") and L and R:
+            # an earlier query on a near twin (numbers changed in the 5th significant digit, so that it prints identically) must not
+            # influence the judged query
+            def nudge(ts, up):
+                return [[dict(t[0]), t[1] + (3e-5 * abs(t[1]) + 3e-5) * (1 if up else -1)] for t in ts]
+            if case["prime"] == "left-looser":
+                env.call("termlist.refines", env.TL(nudge(L, True)).refines, tr)
+            else:
+                env.call("termlist.refines", tl.refines, env.TL(nudge(R, False)))
+            labels.append("primed:" + case["prime"])
         st_, got = env.call("termlist.refines", (lambda: tl.refines(tr)) if case["via"] == "refines" else (lambda: tl <= tr))
         if st_ == "refused":
             return {"viol": {"what": "termlist refines raised %r" % got, "sig": {"kind": "refines-raised", "type": type(got).__name__}, "detail": {}},
